@@ -372,7 +372,7 @@ func main() {
 	}
 	sort.Strings(ids)
 	for _, id := range ids {
-		fmt.Printf("KNOWN-FINDING: property=%s %s: %s\n", prop, id, known[id])
+		fmt.Printf("KNOWN-FINDING: property=%s %s: %s\n", prop, id, strings.Join(strings.Fields(known[id]), " "))
 	}
 	for _, n := range notes {
 		fmt.Println("note:", n)
